@@ -130,4 +130,82 @@ def demo : Inst :=
 example : checkSchedule demo = true := by decide
 example : Anc demo ⟨1, 0⟩ ⟨0, 0⟩ := .direct (r := ⟨⟨0, 0⟩, 7, 9, [(1, [0], [5], [6])]⟩) (by decide) (by decide)
 
+/-! ## Every compiled schedule the checker accepts is a valid order of the dataflow graph -/
+
+section Link
+open Rex.Sched
+
+/-- cells ordered by (partition, generation) -/
+def cellLe (a b : Cell) : Bool := !posLt b.pos a.pos
+
+theorem posLt_iff (a b : Nat × Nat) : posLt a b = true ↔ (a.1 < b.1 ∨ (a.1 = b.1 ∧ a.2 < b.2)) := by
+  simp [posLt]
+
+theorem cellLe_iff (a b : Cell) : cellLe a b = true ↔ ¬ (b.part < a.part ∨ (b.part = a.part ∧ b.gen < a.gen)) := by
+  unfold cellLe
+  rw [Bool.not_eq_true', ← Bool.not_eq_true, posLt_iff]
+  rfl
+
+theorem cellLe_trans (a b c : Cell) (h1 : cellLe a b = true) (h2 : cellLe b c = true) : cellLe a c = true := by
+  rw [cellLe_iff] at *
+  omega
+
+theorem cellLe_total (a b : Cell) : (cellLe a b || cellLe b a) = true := by
+  rw [Bool.or_eq_true, cellLe_iff, cellLe_iff]
+  omega
+
+/-- the order in which the compiled runtime executes the scheduled vertices (partition by partition, generation by generation) -/
+def execOrder (i : Inst) : List Vtx := (i.sched.mergeSort cellLe).map Cell.v
+
+/-- the dependency graph of the instance as a dataflow graph (any value type, any step functions) -/
+def graphOf {Val : Type} (i : Inst) (f : Vtx → List Val → Val) (dflt : Val) : Rex.Dataflow.Graph Vtx Val :=
+  { deps := fun v => match i.row? v with | some r => depsOf r | none => [], f := f, dflt := dflt }
+
+/-- **A schedule accepted by the checker is a valid order**: no vertex twice, every dependency (previous step of the node, producer of
+every message in the windows) strictly earlier — so by `C01_any_valid_schedule` executing it gives every vertex the same inputs, state
+and output as any other valid order, in particular the order in which the asynchronous runtime ran the recorded episode. -/
+theorem C07_checked_schedule_is_valid_order {Val : Type} (i : Inst) (h : checkSchedule i = true) (f : Vtx → List Val → Val) (dflt : Val) :
+    Rex.Dataflow.Valid (graphOf i f dflt) (execOrder i) := by
+  have hperm := List.mergeSort_perm i.sched cellLe
+  have hsorted := List.pairwise_mergeSort (le := cellLe) cellLe_trans cellLe_total i.sched
+  have hnd : (execOrder i).Nodup := by
+    have h1 := valid_no_vertex_twice i h
+    exact ((hperm.map Cell.v).nodup_iff).mpr h1
+  refine ⟨hnd, ?_⟩
+  intro pre v post ho d hd
+  -- the cell of `v` in the sorted list
+  unfold execOrder at ho
+  obtain ⟨l1, l2', hsplit, hm1, hm2⟩ := List.map_eq_append_iff.mp ho
+  cases l2' with
+  | nil => simp at hm2
+  | cons c l2 =>
+    simp only [List.map_cons, List.cons.injEq] at hm2
+    obtain ⟨hcv, hpost⟩ := hm2
+    have hc : c ∈ i.sched := hperm.subset (by rw [hsplit]; simp)
+    -- the dependency is scheduled strictly earlier
+    simp only [graphOf] at hd
+    cases hr : i.row? v with
+    | none => rw [hr] at hd; cases hd
+    | some r =>
+      rw [hr] at hd
+      obtain ⟨c', hc', hv', hlt⟩ := valid_dep_earlier i h c hc r (by rw [hcv]; exact hr) d hd
+      have hc'm : c' ∈ i.sched.mergeSort cellLe := hperm.symm.subset hc'
+      rw [hsplit] at hc'm hsorted
+      rw [← hm1]
+      rcases List.mem_append.mp hc'm with hin | hin
+      · exact List.mem_map.mpr ⟨c', hin, hv'⟩
+      · -- c' cannot come at or after c: sortedness gives c ≤ c', i.e. ¬ c' < c
+        exfalso
+        rcases List.mem_cons.mp hin with heq | hin2
+        · subst heq
+          rw [posLt_iff] at hlt
+          omega
+        · have := (List.pairwise_append.mp hsorted).2.1
+          have hcc' := (List.pairwise_cons.mp this).1 c' hin2
+          rw [cellLe_iff] at hcc'
+          rw [posLt_iff] at hlt
+          exact hcc' hlt
+
+end Link
+
 end Rex.C07
